@@ -69,6 +69,17 @@ def config(name):
         desc['level_params']['nsweeps'] = [2, 1]
         desc['space_transfer_class'] = IdentityTransfer
         cp['predict_type'] = 'fine_only'
+    elif base == 'newton_inexact':
+        # a shipped convergence controller that writes into the PROBLEM object (its Newton tolerance) during a run
+        from pySDC.implementations.convergence_controller_classes.inexactness import NewtonInexactness
+        from pySDC.implementations.problem_classes.Van_der_Pol_implicit import vanderpol
+
+        desc['problem_class'] = vanderpol
+        desc['problem_params'] = {'mu': 2.0, 'newton_tol': 1e-9, 'newton_maxiter': 50, 'u0': np.array([2.0, 0.0])}
+        desc['level_params'] = {'restol': 1e-8, 'dt': dt}
+        desc['step_params'] = {'maxiter': 8}
+        desc['convergence_controllers'] = {NewtonInexactness: {}}
+        cp['hook_class'] = [LogSolution, LogWork]
     elif base == 'pfasst':
         P = 3
         desc['sweeper_params']['num_nodes'] = [3, 2]
@@ -127,7 +138,7 @@ class RejectFirstAttempt(ConvergenceController):
             S.status.restart = True
 
 
-FIXED = ['sdc', 'sdcs', 'lobatto', 'mlsdc', 'mlsdc_equid', 'mlsdc_flex', 'pfasst', 'mssdc', 'rk', 'hooks', 'restarts', 'sdc/random', 'pfasst/random']
+FIXED = ['sdc', 'sdcs', 'lobatto', 'mlsdc', 'mlsdc_equid', 'mlsdc_flex', 'newton_inexact', 'pfasst', 'mssdc', 'rk', 'hooks', 'restarts', 'sdc/random', 'pfasst/random']
 ALL = FIXED + ['adaptive']
 
 
@@ -167,6 +178,9 @@ def build(name, shared=None):
 def u_init(ctrl):
     P0 = ctrl.MS[0].levels[0].prob
     u0 = P0.dtype_u(P0.init, val=0.0)
+    if np.size(u0) == 2:  # van der Pol
+        u0[:] = [2.0, 0.0]
+        return u0
     u0[:] = [1.0 + 0.25j, -0.5, 0.3]
     return u0
 
@@ -344,7 +358,7 @@ def run(rep, tier):
         'continuation time = end time of the last step as logged by the first part (the float the controller itself accumulated)',
         'adaptive configuration only takes part in run() (the re-run / split clauses of the property are for fixed step sizes)',
     ]
-    names = ALL if tier == 'thorough' else ['sdc', 'lobatto', 'mlsdc', 'mlsdc_equid', 'mlsdc_flex', 'pfasst', 'mssdc', 'hooks', 'restarts', 'sdc/random', 'adaptive']
+    names = ALL if tier == 'thorough' else ['sdc', 'lobatto', 'mlsdc', 'mlsdc_equid', 'mlsdc_flex', 'newton_inexact', 'pfasst', 'mssdc', 'hooks', 'restarts', 'sdc/random', 'adaptive']
     depth = 4 if tier == 'thorough' else 3
     refs = dict(zip(ALL, common.pmap(reference, ALL, nproc=min(8, common.NPROC))))
     # the reference itself must be reproducible: second subprocess for two configurations
